@@ -27,9 +27,23 @@ func (c11) Assumptions() []string {
 func (c11) Gen(tier string, seed int64) []fw.Unit {
 	r := rngFor(seed, "C11")
 	var us []fw.Unit
-	n := 25
+	n := 48
 	if tier == "thorough" {
-		n = 250
+		n = 400
+	}
+	// QR mask selection must not look at colours: many contents under low-contrast,
+	// inverted and odd schemes
+	nq := 1500
+	if tier == "thorough" {
+		nq = 15000
+	}
+	for i := 0; i < nq; i++ {
+		sch := int64(12*(1+r.Intn(300)) + []int{8, 9, 10, 8, 9, 7, 11, 8, 9, 10}[i%10])
+		req := randomValidReq(r, "qr", sch)
+		if len(req.S) > 120 {
+			req.S = req.S[:40]
+		}
+		us = append(us, req.Unit("render", "qr-scheme-independence"))
 	}
 	for _, fam := range families {
 		for i := 0; i < n; i++ {
